@@ -12,7 +12,7 @@ from vf import contracts
 PROPERTY = "C17"
 LEVEL = "exploration"
 SHARDS = {"quick": 4, "thorough": 16}
-REQUIRED = ["list-model", "views-agree", "immutable-views", "query-roundtrip"]
+REQUIRED = ["list-model", "views-agree", "immutable-views", "query-roundtrip", "aliasing"]
 RULE = ("Exhaustive: every sequence of length <=3 (thorough <=4) over 39 operations (assign, delete, append, setlist/poplist, pop "
         "with/without default, popitem, setdefault, update from mapping/pairs/kwargs/multi-mapping, clear) on keys {a,b} x values {1,2}, from 5 "
         "initial pair lists; random sequences of length <=30 over 4 keys x 4 values with the icontract invariant armed on the real class; "
@@ -237,6 +237,29 @@ def nontrivial(init, seq):
     return False
 
 
+def aliasing(ctx, pairs, rng):
+    """several mappings built from the SAME list object: changing one must not change the others nor the caller's list"""
+    from baize.datastructures import FormData, MultiMapping, MutableMultiMapping, QueryParams
+    ctx.mon("aliasing")
+    src = list(pairs)
+    keep = list(src)
+    m1 = MutableMultiMapping(src)
+    others = {"QueryParams": QueryParams(src), "FormData": FormData(src), "MutableMultiMapping": MutableMultiMapping(src), "MultiMapping": MultiMapping(src),
+              "MultiMapping(m1)": MultiMapping(m1)}
+    ops = build_ops("ab", (1, 2))
+    seq = [rng.choice(ops) for _ in range(rng.randrange(1, 5))]
+    for op in seq:
+        apply_real(m1, op)
+    case = {"pairs": pairs, "ops_on_first_mapping": seq}
+    if src != keep:
+        ctx.violation("aliasing|caller's-list-modified", case, f"{keep!r} -> {src!r}")
+    for name, o in others.items():
+        vp = views_problem(o, keep, "abzz")
+        if vp:
+            ctx.violation(f"aliasing|other-mapping-changed|{name}|{vp}", case, f"{o.multi_items()!r}")
+    return case
+
+
 def immutable_views(ctx, pairs, rng):
     from baize.datastructures import FormData, MultiMapping, MutableMultiMapping, QueryParams
     ctx.mon("immutable-views")
@@ -310,6 +333,9 @@ def run(ctx):
                   rng.choice(QS_ALPHA) + rng.choice(["", "", rng.choice(QS_ALPHA)])) for _ in range(rng.randrange(0, 6))]
         immutable_views(ctx, pairs, rng)
         ctx.case(("q", tuple(pairs)) if len(pairs) > 1 else None)
+        ab = [(rng.choice("ab"), rng.choice((1, 2))) for _ in range(rng.randrange(0, 5))]
+        acase = aliasing(ctx, ab, rng)
+        ctx.case(("alias", repr(acase)))
         if i < 1:
             ctx.sample("query-pairs", {"pairs": pairs})
 
